@@ -193,7 +193,7 @@ def run_session(exe, steps, search_timeout=120):
 def fen_white(pos):
     """side to move of a `position` argument (fen ... [moves ...] | startpos [moves ...])"""
     head = pos.split(" moves ")[0]
-    white = head.split()[3] == "w" if head.startswith("fen") else True
+    white = head.split()[2] == "w" if head.startswith("fen") else True
     nm = len(pos.split(" moves ")[1].split()) if " moves " in pos else 0
     return white if nm % 2 == 0 else not white
 
